@@ -89,8 +89,8 @@ func goroutineEnds(pc *printCase, lines [][]byte) ([]int, []int) {
 }
 
 func checkCutCase(res *Result, pc *printCase, rng *rand.Rand, idx int, stride int) int {
-	if res.saturated("C10") {
-		return 0
+	if res.saturated("C10") || pc.Pre != 0 {
+		return 0 // (the line-to-goroutine structure below assumes the report starts at line 1)
 	}
 	p := &printer{lx: newLexicon(rng, nil), created: map[string]string{}}
 	lines := make([][]byte, len(pc.Lines))
